@@ -106,8 +106,8 @@ def _http_conn(db_path=":isolated:", database="DB1", schema="S1"):
 # ------------------------------------------------------------------------------------------------
 import signal
 
-STMT_DEADLINE_S = 45
-STALL_S = 100
+STMT_DEADLINE_S = 90
+STALL_S = 150
 PROGRESS = {"dir": None}
 
 
@@ -246,7 +246,8 @@ def _observe_inner(conn, sql: str) -> dict:
     if n > 3000:
         # large result: all rows enter a digest (floats by repr, fine for the generated integer/text/decimal columns); a sample is kept for the detailed comparison
         import hashlib
-        digest = hashlib.md5(repr([tuple((type(v).__name__, str(v)) for v in r) for r in raw]).encode()).hexdigest()
+        # (above 200 000 rows only the count and the sample are compared: the witness of the multi-batch finding has 1 000 001 rows)
+        digest = hashlib.md5(repr([tuple((type(v).__name__, str(v)) for v in r) for r in raw]).encode()).hexdigest() if n <= 200000 else "not-computed"
         raw = raw[:25] + raw[n // 2: n // 2 + 25] + raw[-25:]
     rows = [[_canon(v) for v in r] for r in raw]
     return {"k": "K", "rows": rows, "nrows": n, "digest": digest, "desc": desc, "rowcount": cur.rowcount, "sqlstate": cur.sqlstate}
@@ -722,6 +723,16 @@ EPOCHS = [1577836800, -12345, -62135596800, 253402300799]     # 2020-01-01, pre-
 
 
 def _worker_a(shard):
+    try:
+        return _worker_a_inner(shard)
+    except Exception as e:        # an exception while encoding with arrow.py / decoding with the connector is a result, not a harness crash
+        import traceback
+        tb = traceback.extract_tb(e.__traceback__)[-1]
+        return {"bad": [f"part A `{shard[0]}` on {str(shard[1])[:120]}: {type(e).__name__}: {str(e)[:160]} (at {os.path.basename(tb.filename)}:{tb.lineno})"],
+                "n": 0, "wire": [], "sum": 0, "crashed": True}
+
+
+def _worker_a_inner(shard):
     """shard = (kind, payload).  Returns a list of problems (strings with the failing input) and counts."""
     import numpy as np
     import pyarrow as pa
@@ -760,18 +771,24 @@ def _worker_a(shard):
             return {"bad": [f"to_sf raised {type(e).__name__} on {'TIMESTAMP_TZ' if tz else 'TIMESTAMP_NTZ'} value us={None if first is None else first + epoch_s * 10**6} "
                             f"(epoch second {epoch_s}, fraction {first} µs): {str(e)[:120]}"], "n": 0, "wire": []}
         st = sf.column(0).combine_chunks()
-        e = st.field("epoch").to_numpy()
-        f = st.field("fraction").to_numpy().astype("int64")
-        want_e, want_f = us // 10**6, (us % 10**6) * 1000
-        if not (e == want_e).all() or not (f == want_f).all():
-            i = int(np.argmax((e != want_e) | (f != want_f)))
-            bad.append(f"struct fields for us={int(us[i])}: (epoch, fraction)=({int(e[i])}, {int(f[i])}), closed form of C17_ts_wire_ranges gives ({int(want_e[i])}, {int(want_f[i])})")
-        if tz:
-            z = st.field("timezone").to_numpy()
-            if not (z == 1440).all():
-                bad.append(f"timezone field {int(z[0])} ≠ 1440 for us={int(us[0])}")
-        if st.null_count:
-            bad.append("valid timestamps encoded as NULL structs")
+        layout = None
+        if pa.types.is_struct(st.type) and {"epoch", "fraction"} <= {st.type.field(i).name for i in range(st.type.num_fields)}:
+            e = st.field("epoch").to_numpy()
+            f = st.field("fraction").to_numpy().astype("int64")
+            want_e, want_f = us // 10**6, (us % 10**6) * 1000
+            if not (e == want_e).all() or not (f == want_f).all():
+                i = int(np.argmax((e != want_e) | (f != want_f)))
+                bad.append(f"struct fields for us={int(us[i])}: (epoch, fraction)=({int(e[i])}, {int(f[i])}), closed form of C17_ts_wire_ranges gives ({int(want_e[i])}, {int(want_f[i])})")
+            if tz:
+                z = st.field("timezone").to_numpy()
+                if not (z == 1440).all():
+                    bad.append(f"timezone field {int(z[0])} ≠ 1440 for us={int(us[0])}")
+            if st.null_count:
+                bad.append("valid timestamps encoded as NULL structs")
+        else:
+            # another wire layout than the modelled struct: only the decoded values can be judged here (the parent looks for a failing input)
+            layout = str(st.type)
+            e = f = None
         exp = col.to_pylist()       # what the in-process cursor hands out
         for i, (r, x) in enumerate(zip(rows, exp)):
             if r[0] != x or (r[0].utcoffset() != x.utcoffset()):
@@ -781,10 +798,25 @@ def _worker_a(shard):
         # a sample of the wire fields for the Lean model
         step = payload[4] if len(payload) > 4 else 0
         wire = []
-        if step:
+        if step and layout is None:
             idx = list(range(0, hi - lo, step))
             wire = [(int(us[i]), int(e[i]), int(f[i]), 1440 if tz else None) for i in idx]
-        return {"bad": bad, "n": n, "wire": wire}
+        return {"bad": bad, "n": n, "wire": wire, "layout": layout}
+    if kind == "extremes":
+        # the ends of the Snowflake timestamp range and of what fits int64 nanoseconds, both layouts, with NULLs in between
+        for tz in (False, True):
+            vals = list(payload)
+            col = pa.array(vals, type=pa.timestamp("us", tz="UTC") if tz else pa.timestamp("us"))
+            try:
+                _, rows = decode(pa.table({"C0": col}), ["TIMESTAMP WITH TIME ZONE" if tz else "TIMESTAMP"])
+            except Exception as e:
+                bad.append(f"to_sf/decoding raised {type(e).__name__} on the {'TIMESTAMP_TZ' if tz else 'TIMESTAMP_NTZ'} column {vals}: {str(e)[:120]}")
+                continue
+            for v, r, x in zip(vals, rows, col.to_pylist()):
+                if r[0] != x or (x is not None and r[0].utcoffset() != x.utcoffset()):
+                    bad.append(f"{'TIMESTAMP_TZ' if tz else 'TIMESTAMP_NTZ'} value us={v} ({x!r} in-process): the connector decodes {r[0]!r} from the server's arrow encoding")
+                    break
+        return {"bad": bad, "n": 2 * len(payload), "wire": []}
     if kind == "time":
         vals = payload
         col = pa.array(vals, type=pa.time64("us"))
@@ -854,6 +886,8 @@ def _run_a(chk, rnd, thorough: bool):
     # TIME: edges + random, NULL columns, old float formula, metadata
     tvals = sorted({0, 1, 65, 999999, 86399999999, 43200000000, 3599999999, 3600000000} | {rnd.randrange(86400 * 10**6) for _ in range(4000 if not thorough else 100000)})
     shards.append(("time", tvals))
+    shards.append(("extremes", [-62135596800000000, 253402300799999999, None, -9223372036854776, -9223372036854775, 9223372036854775, 9223372036854776,
+                                -1, 0, None, 253402300799999999 - 86400 * 10**6, -62135596800000000 + 65]))
     ncols = []
     for n in range(0, 5):
         for pat in itertools.product([0, 1], repeat=n):
@@ -870,11 +904,19 @@ def _run_a(chk, rnd, thorough: bool):
 
     lines, expect = [], []
     old_n, old_sum, old_first = 0, 0, []
+    layouts = sorted({r.get("layout") for r in res if r.get("layout")})
     for (kind, payload), r in zip(shards, res):
+        if r.get("crashed") and kind in ("oldfloat",):
+            raise common.Infra(r["bad"][0])
         for b in r["bad"]:
             us_case = {"part": "A", "kind": kind, "payload": [payload[0], payload[1], payload[2], payload[3]] if kind == "ts" else None, "detail": b}
             chk.violation(b, us_case, broken={"ts": "C17_ts_roundtrip/C17_ts_wire_ranges (real arrow.py vs closed form)", "time": "C17_time_roundtrip",
                                                "nullcol": "C17_ts_roundtrip/C17_null_roundtrip (to_sf raises)"}.get(kind, "C17 part A"))
+        if kind == "extremes":
+            chk.evaluations += r["n"]
+            chk.count("ts:extremes", r["n"])
+        if r.get("crashed"):
+            continue
         if kind == "ts":
             chk.evaluations += r["n"]
             chk.count(f"ts:{'tz' if payload[3] else 'ntz'}:{'pre1970' if payload[0] < 0 else 'post1970'}", r["n"])
@@ -903,6 +945,10 @@ def _run_a(chk, rnd, thorough: bool):
                 lines.append(f"http\tty\t{tok}")
                 expect.append(("meta", tok, got, None))
             chk.count("meta", len(ducks))
+    if layouts and not any(r["bad"] for r in res):
+        # the code no longer builds the struct the model describes and no value decoded wrongly: the model/proof no longer covers it
+        chk.violation(f"timestamps are sent as {layouts} instead of the (epoch, fraction[, timezone]) struct modelled by encodeTs; every explored value still decodes correctly",
+                      {"part": "A", "layout": layouts}, broken="C17_ts_roundtrip (model of arrow.py no longer applies)", failing_input=False)
     lines.append("http\tfloatinexact\t0\t1000000")
     expect.append(("oldfloat", None, None, None))
     replies = common.batch(lines)
